@@ -56,6 +56,38 @@ def check(model: Model, run: Run) -> None:
                                  f"{fi.name} rejects a header under `{' and '.join(norm(c)[:50] for c in conds) or 'always'}`: the only legitimate rejections are exhausted input and the indefinite length octet; "
                                  "a valid non-minimal length form would be refused", model.loc(ASN1, r)))
     run.floor("raise statements in the header routines", n_r, 4)
+    # the header routine names the tag class / universal number through an enum: the conversion must not reject a value a
+    # conforming peer can send (all four classes; every universal number X.680 assigns, 0..36), unless the enum is open
+    from .c05 import may_raise
+    from ..fold import Folder
+    mr = may_raise(model)
+    n_conv = 0
+    for fi in an.header_family:
+        for c in [n for n in walk_no_nested(fi.node) if isinstance(n, ast.Call) and isinstance(n.func, (ast.Name, ast.Attribute)) and len(n.args) == 1]:
+            q = model.resolve_name(fi.module, norm(c.func))
+            k = model.classes.get(q) if q else None
+            if k is None or not k.is_enum:
+                continue
+            n_conv += 1
+            lo, hi = mr.ival(c.args[0], frozenset(), fi)
+            need = set(range(int(lo), int(hi) + 1)) if lo >= 0 and hi <= 255 else set(range(0, 37))
+            have = set()
+            for name, e in k.consts.items():
+                try:
+                    v = Folder(model).fold(e, k.module)
+                except Exception:
+                    continue
+                if isinstance(v, int):
+                    have.add(v)
+            open_ = model.find_method(q, "_missing_") is not None
+            missing = sorted(need - have)
+            ok = open_ or not missing
+            run.ob("V6-tag-naming-accepts-every-assigned-value", ok, {"function": fi.name, "conversion": norm(c)[:60], "needed": f"{min(need)}..{max(need)}", "open": open_})
+            if not ok:
+                run.fail(Finding("V6-tag-naming-accepts-every-assigned-value", fi.qualname, f"{short(q)} lacks {missing}",
+                                 f"{fi.name} converts a received tag field with `{norm(c)[:60]}`; {short(q)} has no member for {missing}, so an element carrying that "
+                                 "(valid, merely unrecognised) identifier makes the whole message undecodable instead of being skipped", model.loc(ASN1, c)))
+    run.coverage["enum_conversions_in_header_routines"] = n_conv      # none at all is fine: then nothing can be rejected there
     # every read_* reaches the single header routine through the validating helper (discovered, not named)
     for name, h in an.reader_helper.items():
         run.ob("V1-single-header-routine", True, {"method": name, "helper": h.name, "validator": an.validate.name, "header_routine": hdr.name})
